@@ -1,6 +1,7 @@
 import ZenoModel.Driver.Codec
 import ZenoModel.Model.Store
 import ZenoModel.Model.Spec
+import ZenoModel.Model.StoreColumn
 
 namespace Zeno.Drv
 open Lean
@@ -45,14 +46,17 @@ def storeEngine (j : Json) : R Json := do
   let ops ← arr j "ops"
   let mut st := Store.init cfg
   let mut outs : Array Json := #[]
+  let mut sops : Array StoreOp := #[]
   for op in ops do
     match (← str op "op") with
     | "ingest" =>
         let p ← parseRawPoint (← obj op "p")
+        sops := sops.push (.ingest p)
         let (st', ok) := st.ingest dummyExt cfg p
         st := st'
         outs := outs.push (Json.mkObj [("accepted", Json.bool ok)])
     | "flush" =>
+        sops := sops.push (.flush (boolD op "sorted" false))
         st := st.flush cfg (boolD op "sorted" false)
         outs := outs.push (Json.mkObj [("flushCount", Json.num (Int.ofNat st.flushCount))])
     | "iterate" =>
@@ -65,7 +69,10 @@ def storeEngine (j : Json) : R Json := do
         let r := st.iterate cfg outFields (boolD op "mem" true)
         outs := outs.push (Json.mkObj [("rows", Json.arr (r.rows.map rowJson).toArray), ("stopped", Json.bool r.stopped)])
     | o => throw s!"store: unknown op {o}"
-  pure (Json.mkObj [("outs", Json.arr outs), ("now", Json.str (timeStr st.now))])
+  -- executable tie between the store model and the one-column model (Model/StoreColumn.lean)
+  let mm := projectionMismatches dummyExt cfg sops.toList true ++ projectionMismatches dummyExt cfg sops.toList false
+  pure (Json.mkObj [("outs", Json.arr outs), ("now", Json.str (timeStr st.now)),
+    ("projMismatch", Json.arr (mm.map (fun (k, i) => Json.mkObj [("key", keyJson k), ("field", Json.num (Int.ofNat i))])).toArray)])
 
 /-- engine `spec`: the raw-point reference semantics of one table -/
 def specEngine (j : Json) : R Json := do
